@@ -10,7 +10,7 @@ LEVEL_TEXT = ("Lean 4 theorems, for every horizon and every well-formed input ov
               "(D1 integer array, D2 greenhouse share not subtracted); tied to the real code on generated and real-country inputs every run")
 LEVEL_NOTE = ("Trusted: Lean kernel (propext/Classical.choice/Quot.sound), the Python correspondence harness, exact arithmetic vs IEEE doubles (rel 1e-9), "
               "x**e as a parameter with 0<=x<=1, 0<e<=1 -> x <= pow x e <= 1 and pow x 1 = x. /repo carries two fix: commits for this property "
-              "(b6083af float array, 8683ed7 greenhouse share in the no-relocation branch); the model mirrors the fixed code.")
+              "(58fff13 float array, e318e93 greenhouse share in the no-relocation branch); the model mirrors the fixed code.")
 TECHNIQUE = "Lean 4 proofs over list models + differential correspondence and metamorphic re-runs of the real classes"
 DRIVER = "driver_supply"
 LEAN_MODULES = ["AllfedModel.Props.C09", "AllfedModel.Props.C09Real"]
@@ -32,9 +32,9 @@ ASSUMPTIONS = [
 TRUSTED = ["the Greenhouses instance of compute_parameters_first_round is captured by subclassing it inside src.optimizer.parameters for the call"]
 
 CORPUS = [
-    # D1 (fixed b6083af): a small country under relocation was truncated to 0 every month
+    # D1 (fixed 58fff13): a small country under relocation was truncated to 0 every month
     dict(NMONTHS=120, BASELINE=0.9, reloc=True, gh=True, area=1.0),
-    # D2 (fixed 8683ed7): scenario "greenhouse" (no relocation) did not subtract the greenhouse share
+    # D2 (fixed e318e93): scenario "greenhouse" (no relocation) did not subtract the greenhouse share
     dict(NMONTHS=120, BASELINE=5000.0, reloc=False, gh=True, area=1.0),
     dict(NMONTHS=48, BASELINE=0.004, reloc=True, gh=False, area=72 / 39),
 ]
